@@ -14,6 +14,8 @@ From CV Require Import Packed.ReadCallProofs2.
 From CV Require Import Frame.FramePackedFull.
 From CV Require Import Frame.FrameReaders.
 From CV Require Import Frame.FrameReadersProofs.
+From CV Require Import Frame.FrameReuse.
+From CV Require Import Frame.FrameReuseProofs.
 From CV Require Import Base.GoSem.
 From CV Require Import Gen.GoArith.
 From CV Require Import Frame.FrameGoAgree.
@@ -57,8 +59,8 @@ Proof. exact cut_decompose. Qed.
 Print Assumptions C14_cut_decompose.
 
 (* For ALL input bytes and any decoder state: buffers requested by one Decode <= the
-   effective MaxMessageSize; at most 513 segments accepted (the code tests maxSeg > 512:
-   one more than maxStreamSegments); no panic; a returned message is well formed and its
+   effective MaxMessageSize; at most 512 segments accepted (= maxStreamSegments; the repaired code tests maxSeg >= 512,
+   the code as found accepted 513: C14_accepts_513_refuted); no panic; a returned message is well formed and its
    framed size is within the limit. *)
 Theorem C14_alloc_bound : forall cs fin hc bc ru mx st' out log,
   bytes_ok (concat cs) -> 0 <= mx < two64 ->
@@ -111,6 +113,49 @@ Theorem C14_read_full_chunking : forall cs fin need got,
   flat (read_full_loop cs fin need got) = read_full_flat (concat cs) fin need got.
 Proof. exact read_full_loop_flat. Qed.
 Print Assumptions C14_read_full_chunking.
+
+(* ---------------------------------------------------------------- ReuseBuffer at the level of buffer contents *)
+
+(* In the theorems above "reuse on/off, any hc bc" means: the reuse FLAG and the buffer
+   CAPACITIES; Frame.v's decoder has value semantics and does not represent what the reused
+   buffers contain nor the reused Message object.  FrameReuse.v does: d.hdrbuf / d.buf keep their
+   old bytes when large enough, segments are slices of d.buf's array, the returned Message is the
+   one object d.msg with its cache of loaded segments, which Message.Reset must drop.
+   One Decode of that model, from ANY previous buffer contents and ANY state of the segment cache,
+   on any byte stream: same outcome and same capacities as the capacities-only decoder with the
+   reuse flag on, and the segments the caller reads through Message.Segment are the message's. *)
+Theorem C14_rdecode1_refines : forall st,
+  bytes_ok (concat (r_chunks (u_rd st))) -> (u_cur st < length (u_heap st))%nat ->
+  ref_ok (rdecode1 st) (decode1 (u_abs st)).
+Proof. exact rdecode1_refines. Qed.
+Print Assumptions C14_rdecode1_refines.
+
+(* ... and for every history  Decode; read all segments; Decode; ...  (reading fills the cache
+   that the next Reset has to drop).  With C14_decode_encode_stream / C14_cut_is_error /
+   C14_alloc_bound at ru = true (they hold for both values of ru and every hc bc) this gives:
+   decoding with ReuseBuffer, whatever the buffers held before, returns what decoding without
+   ReuseBuffer returns.  (The general "ru = true and ru = false give the same outcome on every
+   byte stream" is not stated as one lemma; it follows for streams of frames and for cut streams
+   from the theorems named, and is exercised by the differential run on arbitrary streams.) *)
+Theorem C14_reuse_history_refines : forall n st, ust_ok st ->
+  Forall2 (fun ro d => out_match (fst d) (fst ro) (snd ro))
+          (rdecode_read_n ResetFull st n) (snd (decode_n (u_abs st) n)).
+Proof. exact reuse_history_refines. Qed.
+Print Assumptions C14_reuse_history_refines.
+
+(* the two broken Message.Reset variants seen as seeded changes (reset only "if arena != m.Arena";
+   firstSeg not cleared): the caller gets the previous message's slice over the new bytes *)
+Theorem C14_reset_variants_refuted :
+  let f1 := frame [[1; 2; 3; 4; 5; 6; 7; 8; 9; 9; 9; 9; 9; 9; 9; 9]] in
+  let f2 := frame [[7; 7; 7; 7; 7; 7; 7; 7]] in
+  let st := mkU (mkReader [f1 ++ f2] EOF) [5; 5; 5] [[6; 6; 6]] 0 msg0 0 in
+  ust_ok st /\
+  map snd (rdecode_read_n ResetFull st 3)
+    = [[Some [1; 2; 3; 4; 5; 6; 7; 8; 9; 9; 9; 9; 9; 9; 9; 9]]; [Some [7; 7; 7; 7; 7; 7; 7; 7]]; []] /\
+  nth 1 (map snd (rdecode_read_n ResetIfArenaDiffers st 3)) [] = [Some [7; 7; 7; 7; 7; 7; 7; 7; 9; 9; 9; 9; 9; 9; 9; 9]] /\
+  nth 1 (map snd (rdecode_read_n ResetKeepsFirst st 3)) [] = [Some [7; 7; 7; 7; 7; 7; 7; 7; 9; 9; 9; 9; 9; 9; 9; 9]].
+Proof. exact reset_variants_refuted. Qed.
+Print Assumptions C14_reset_variants_refuted.
 
 (* ---------------------------------------------------------------- every reader behaviour the io.Reader contract permits *)
 
